@@ -59,6 +59,35 @@ const shardID = "s1"
 
 // idx returns the index of a loadedShard of this replay (0 = not ours: a
 // straggler goroutine of an earlier behaviour).
+// confirmStuck: every call that did not return is parked on a lock (mutex, file
+// lock) or, observed twice two seconds apart, on the same channel operation.
+func (rp *replay) confirmStuck(pending []string) (string, map[string]string, bool) {
+	dump := gate.Dump()
+	info := gate.BlockedOnLock(dump, rp.sched.GoIDs())
+	blocked, onChan := true, false
+	for _, a := range pending {
+		switch {
+		case strings.Contains(info[a], "sync.") || strings.Contains(info[a], "flock"):
+		case strings.Contains(info[a], "chan send") || strings.Contains(info[a], "chan receive"):
+			onChan = true
+		default:
+			blocked = false
+		}
+	}
+	if blocked && onChan {
+		time.Sleep(2 * time.Second)
+		dump2 := gate.Dump()
+		info2 := gate.BlockedOnLock(dump2, rp.sched.GoIDs())
+		for _, a := range pending {
+			if info2[a] != info[a] {
+				blocked = false
+			}
+		}
+		dump = dump2
+	}
+	return dump, info, blocked
+}
+
 func (rp *replay) idx(key any) int {
 	rp.mu.Lock()
 	defer rp.mu.Unlock()
@@ -340,15 +369,10 @@ func Replay(bno int, steps []Step, root string, tw *trace.Writer, opts Opts) (dr
 	rp.sched.FreeRun()
 	pending := rp.sched.AllDone(rp.actors, 3*rp.opts.StepTimeout+2*time.Second)
 	if len(pending) > 0 {
-		dump := gate.Dump()
-		info := gate.BlockedOnLock(dump, rp.sched.GoIDs())
+		dump, info, blocked := rp.confirmStuck(pending)
 		who := []string{}
-		blocked := true
 		for _, a := range pending {
 			who = append(who, a+": "+info[a])
-			if !strings.Contains(info[a], "sync.") && !strings.Contains(info[a], "flock") {
-				blocked = false
-			}
 		}
 		sort.Strings(who)
 		tw.Emit("Stuck", M{"who": who, "confirmed": b2i(blocked)})
@@ -437,15 +461,10 @@ func Stress(round int, seed int64, root string, tw *trace.Writer, opts Opts) (st
 	}
 	pending := rp.sched.AllDone(rp.actors, 4*time.Second)
 	if len(pending) > 0 {
-		dump := gate.Dump()
-		info := gate.BlockedOnLock(dump, rp.sched.GoIDs())
+		dump, info, blocked := rp.confirmStuck(pending)
 		who := []string{}
-		blocked := true
 		for _, a := range pending {
 			who = append(who, a+": "+info[a])
-			if !strings.Contains(info[a], "sync.") && !strings.Contains(info[a], "flock") {
-				blocked = false
-			}
 		}
 		sort.Strings(who)
 		tw.Emit("Stuck", M{"who": who, "confirmed": b2i(blocked)})
